@@ -3,7 +3,7 @@
 use std::panic::{catch_unwind, AssertUnwindSafe};
 
 use ndarray::{Array1, Array2};
-use ndarray_interp::interp1d::cubic_spline::{BoundaryCondition, CubicSpline};
+use ndarray_interp::interp1d::cubic_spline::{BoundaryCondition, CubicSpline, RowBoundary, SingleBoundary};
 use ndarray_interp::interp1d::{Interp1DBuilder, Linear};
 use ndarray_interp::interp2d::{Bilinear, Interp2DBuilder};
 use ndarray_interp::vector_extensions::{Monotonic, VectorExtensions};
@@ -211,6 +211,28 @@ fn probe_inner(unit: &str) {
                     }
                 }
             }
+            // extreme magnitudes: axis and data scaled by the same power of two (exact, so the expected value is the scaled
+            // small-magnitude result); an intermediate that has the unit data*axis overflows / underflows here
+            for e in [540i32, -540, 400, -480] {
+                let sc = 2f64.powi(e);
+                let ax0 = [0.0f64, 1.0, 2.5, 3.0, 4.75];
+                let d0 = [1.0f64, 3.5, -2.0, 0.5, 4.0];
+                let ax: Vec<f64> = ax0.iter().map(|v| v * sc).collect();
+                let d: Vec<f64> = d0.iter().map(|v| v * sc).collect();
+                let it = Interp1DBuilder::new(Array1::from(d.clone())).x(Array1::from(ax.clone())).strategy(Linear::new().extrapolate(true)).build().unwrap();
+                let it0 = Interp1DBuilder::new(Array1::from(d0.to_vec())).x(Array1::from(ax0.to_vec())).strategy(Linear::new().extrapolate(true)).build().unwrap();
+                for q0 in [0.25f64, 0.75, 1.0, 1.5, 2.25, 2.75, 3.5, 4.5, 5.0, -0.5] {
+                    let i = want_index(&ax0.to_vec(), q0);
+                    let (x1, x2, y1, y2) = (ax0[i], ax0[i + 1], d0[i], d0[i + 1]);
+                    let want0 = (y2 - y1) / (x2 - x1) * (q0 - x1) + y1;
+                    let want = want0 * sc;
+                    let got = match catch_unwind(AssertUnwindSafe(|| it.interp_scalar(q0 * sc))) { Ok(Ok(g)) => g, other => return out(true, unit, format!("axis and data scaled by 2^{e}, query={:e}", q0 * sc), format!("{want:e}"), format!("{other:?}")) };
+                    let _ = &it0;
+                    if !((got - want).abs() <= 64.0 * f64::EPSILON * (y1.abs().max(y2.abs()).max(want0.abs())) * sc) {
+                        return out(true, unit, format!("axis {ax0:?} and data {d0:?} both scaled by 2^{e}, query={:e}", q0 * sc), format!("{want:e}"), format!("{got:e}"));
+                    }
+                }
+            }
             out(false, unit, String::new(), String::new(), String::new())
         }
         "Linear::integer-affine" => {
@@ -342,6 +364,48 @@ fn probe_inner(unit: &str) {
                     match b { Ok(b) if (a - b).abs() <= 1e-6 * (1.0 + a.abs()) * k.abs() => {}
                         other => return out(true, unit, format!("periodic spline axis={ax:?} data={:?} query={q} + {k}*{p}", pd.to_vec()), format!("{a}"), format!("{other:?}")) }
                 } }
+            }
+            out(false, unit, String::new(), String::new(), String::new())
+        }
+        "CubicSpline::large-cubic" => {
+            // C16 / C02 / C03 far beyond the exhaustive shapes: data sampled from a different cubic per lane on a non-uniform axis is
+            // reproduced at every query of every piece (NotAKnot; FirstDeriv / SecondDeriv end values taken from the cubic), for
+            // long axes (block sizes 32 / 64 with and without remainders) and many lanes (more than 64, no multiple of 8)
+            for (n, shape) in [(33usize, vec![1usize]), (34, vec![3]), (40, vec![2]), (65, vec![1]), (70, vec![2]), (97, vec![1]), (130, vec![1]), (8, vec![77]), (7, vec![7, 11]), (5, vec![70]), (36, vec![66])] {
+                let lanes: usize = shape.iter().product();
+                let gaps = [0.5f64, 1.25, 0.75, 2.0, 1.0, 0.25, 1.5];
+                let mut ax = vec![-3.0f64];
+                for i in 0..n - 1 { let l = *ax.last().unwrap(); ax.push(l + gaps[(i * 5 + n) % gaps.len()]); }
+                let span = ax[n - 1] - ax[0];
+                // coefficients scaled so that the values stay O(1) over the whole axis
+                let coef = |j: usize| -> [f64; 4] { let j = j as f64; [1.0 + 0.25 * j, (0.5 - 0.125 * j) / span, (0.75 + 0.0625 * j) / (span * span), (-1.0 + 0.03125 * j) / (span * span * span)] };
+                let p = |c: &[f64; 4], t: f64| { let u = t - ax[0]; c[0] + u * (c[1] + u * (c[2] + u * c[3])) };
+                let dp = |c: &[f64; 4], t: f64| { let u = t - ax[0]; c[1] + u * (2.0 * c[2] + u * 3.0 * c[3]) };
+                let ddp = |c: &[f64; 4], t: f64| { let u = t - ax[0]; 2.0 * c[2] + 6.0 * c[3] * u };
+                let mut full = vec![n]; full.extend(shape.iter().copied());
+                let flat: Vec<f64> = (0..n).flat_map(|i| (0..lanes).map(move |j| (i, j))).map(|(i, j)| p(&coef(j), ax[i])).collect();
+                let data = ndarray::ArrayD::from_shape_vec(ndarray::IxDyn(&full), flat).unwrap();
+                let mut bshape = vec![1usize]; bshape.extend(shape.iter().copied());
+                let rows: Vec<RowBoundary<f64>> = (0..lanes).map(|j| RowBoundary::Mixed { left: SingleBoundary::FirstDeriv(dp(&coef(j), ax[0])), right: SingleBoundary::SecondDeriv(ddp(&coef(j), ax[n - 1])) }).collect();
+                let barr = ndarray::ArrayD::from_shape_vec(ndarray::IxDyn(&bshape), rows).unwrap();
+                for (bname, bc) in [("NotAKnot", BoundaryCondition::NotAKnot), ("Individual(FirstDeriv, SecondDeriv of the cubic)", BoundaryCondition::Individual(barr))] {
+                    let it = match catch_unwind(AssertUnwindSafe(|| Interp1DBuilder::new(data.clone()).x(Array1::from(ax.clone())).strategy(CubicSpline::new().boundary(bc).extrapolate(true)).build())) {
+                        Ok(Ok(it)) => it,
+                        other => return out(true, unit, format!("n={n} trailing shape {shape:?} boundary={bname}"), "Ok(interpolator)".into(), format!("{:?}", other.map(|r| r.map(|_| "interpolator").map_err(|e| e.to_string())))),
+                    };
+                    let mut qs: Vec<f64> = Vec::new();
+                    for i in 0..n - 1 { for f in [0.25f64, 0.8125] { qs.push(ax[i] + (ax[i + 1] - ax[i]) * f); } }
+                    qs.push(ax[0] - 0.375); qs.push(ax[n - 1] + 0.625);
+                    for q in qs {
+                        let r = match catch_unwind(AssertUnwindSafe(|| it.interp(q))) { Ok(Ok(r)) => r, other => return out(true, unit, format!("n={n} trailing shape {shape:?} boundary={bname} query={q}"), "Ok".into(), format!("{:?}", other.map(|r| r.map(|a| a.len()).map_err(|e| e.to_string())))) };
+                        for (j, g) in r.iter().enumerate() {
+                            let want = p(&coef(j), q);
+                            if !((g - want).abs() <= 1e-8 * (1.0 + want.abs())) {
+                                return out(true, unit, format!("cubic sampled at n={n} non-uniform knots from {} to {}, trailing shape {shape:?} (lane {j} of {lanes}), boundary={bname}, query={q}", ax[0], ax[n - 1]), format!("{want} (the cubic itself)"), format!("{g}"));
+                            }
+                        }
+                    }
+                }
             }
             out(false, unit, String::new(), String::new(), String::new())
         }
